@@ -34,8 +34,19 @@ def sh(cmd, cwd=None, env=None, timeout=3600):
     e.update({"CARGO_NET_OFFLINE": "true"})
     if env:
         e.update(env)
-    p = subprocess.run(cmd, cwd=cwd, env=e, stdout=subprocess.PIPE, stderr=subprocess.STDOUT, text=True, timeout=timeout)
-    return p.returncode, p.stdout
+    # own process group, so that a mutant that hangs the tests can be killed with everything it started
+    pr = subprocess.Popen(cmd, cwd=cwd, env=e, stdout=subprocess.PIPE, stderr=subprocess.STDOUT, text=True, start_new_session=True)
+    try:
+        out, _ = pr.communicate(timeout=timeout)
+    except subprocess.TimeoutExpired:
+        import signal
+        try:
+            os.killpg(pr.pid, signal.SIGKILL)
+        except ProcessLookupError:
+            pass
+        out, _ = pr.communicate()
+        return 124, (out or "") + "\nTIMEOUT (test result: hung)"
+    return pr.returncode, out
 
 
 def sites(repo):
@@ -106,7 +117,7 @@ def main():
         lines[li] = old_line[:a] + rep + old_line[b:]
         open(path, "w").write("\n".join(lines))
         t0 = time.time()
-        rc, out = sh(["cargo", "test", "--offline", "--lib", "--target-dir", os.path.join(work, "target")], cwd=repo, timeout=1800)
+        rc, out = sh(["cargo", "test", "--offline", "--lib", "--target-dir", os.path.join(work, "target")], cwd=repo, timeout=300)
         if rc != 0:
             open(path, "w").write(orig)
             kind = "does-not-compile" if "error[" in out or "error:" in out and "test result" not in out else "killed-by-tests"
